@@ -48,7 +48,7 @@ struct LqRun {
 
     void op_id(const Op& op) {
         Id d; d.hash = unhex(op.s.empty() ? "" : op.s[0]); d.hash.resize(48); d.id.alloc(R.sz(JV_SZ_LQ_ID));
-        env.lib_calls++; R.jv_lq_compute_id_from_hash(view, d.id, d.hash.data()); d.Q = q_of(d.id);
+        { MBytes hm(d.hash.data(), d.hash.size(), (size_t) (1 + (env.lib_calls + (uint64_t) env.step) % 15)); env.lib_calls++; R.jv_lq_compute_id_from_hash(view, d.id, hm.p); } d.Q = q_of(d.id);
         int ek; env.check((R.jv_g1a_status(R.jv_field(JV_OK_LQ_ID, d.id, 0, 0, &ek)) & 7) == 6, "C16", "identity:in-G1", "identity point is not a non-identity element of the order-r subgroup");
         env.logf("LQID %s", sha_hex(w.c1(d.Q).data(), 97, 8).c_str()); ids.push_back(std::move(d));
     }
